@@ -686,6 +686,139 @@ Proof.
   exists bytes, e, key. destruct hint; cbn in *; subst; repeat split; assumption.
 Qed.
 
+(* ---------- one instance, several tokens: nothing carries over ---------- *)
+(* A remote key set whose endpoint keeps serving the same list l is stateless as
+   far as answers go: whether its cache is still empty or already holds l, every
+   call is answered as by a fresh key set.  (What an instance verified earlier is
+   no input of a later answer - no memo of verified signatures, no pinned key.) *)
+Section Steady.
+  Variable verify : jwk -> sigentry -> string -> bool.
+
+  Lemma remote_verify_steady : forall l skip e p,
+    remote_verify verify l (Some l) skip e p = remote_verify verify [] (Some l) skip e p.
+  Proof.
+    intros l skip e p. unfold remote_verify. destruct l as [|k0 l0] eqn:Hl; [reflexivity|]. rewrite <- Hl.
+    cbn [remote_fetch_verify].
+    destruct (find_matching_key (se_kid e) "sig" (se_alg e) l) as [k| |]; try reflexivity.
+    cbn [verify_found]. destruct (verify k e p); [reflexivity|].
+    destruct (remote_exact skip (k_id k) (se_kid e)); reflexivity.
+  Qed.
+
+  Lemma check_signature_steady : forall allowed l skip cached t parsed,
+    cached = [] \/ cached = l ->
+    check_signature verify allowed (KSRemote cached (Some l) skip) t parsed
+    = check_signature verify allowed (KSRemote [] (Some l) skip) t parsed.
+  Proof.
+    intros allowed l skip cached t parsed [Hc|Hc]; subst cached; [reflexivity|].
+    unfold check_signature.
+    destruct (jose_parse (effective_algs allowed) t) as [| |sigs signed]; try reflexivity.
+    destruct sigs as [|e [|e2 r]]; try reflexivity.
+    cbn [keyset_verify]. now rewrite remote_verify_steady.
+  Qed.
+
+  Lemma remote_after_steady : forall allowed skip l cached t,
+    cached = [] \/ cached = l ->
+    fst (remote_after verify allowed skip cached (Some l) t) = []
+    \/ fst (remote_after verify allowed skip cached (Some l) t) = l.
+  Proof.
+    intros allowed skip l cached t Hc. unfold remote_after.
+    destruct (jose_parse (effective_algs allowed) t) as [| |[|e [|e2 r]] p]; cbn [fst]; try exact Hc.
+    destruct (remote_needs_fetch verify cached skip e p); cbn [fst]; [now right | exact Hc].
+  Qed.
+
+  Theorem remote_steady_stateless : forall allowed skip l steps cached,
+    cached = [] \/ cached = l ->
+    Forall (fun s => rs_served s = Some l) steps ->
+    map fst (remote_run verify allowed skip cached steps)
+    = map (fun s => check_signature verify allowed (KSRemote [] (Some l) skip) (rs_tok s) (rs_parsed s)) steps.
+  Proof.
+    intros allowed skip l steps. induction steps as [|s r IH]; intros cached Hc Hs; [reflexivity|].
+    inversion Hs as [|? ? Hs1 Hsr]; subst. cbn [remote_run map fst]. rewrite Hs1.
+    rewrite (check_signature_steady allowed l skip cached _ _ Hc). f_equal.
+    apply IH; [|assumption]. now apply remote_after_steady.
+  Qed.
+
+  (* the same for each of the five verifiers standing on such a key set *)
+  Theorem verifier_steady : forall k v l skip t m now,
+    run_verifier verify k v (KSRemote l (Some l) skip) t m now
+    = run_verifier verify k v (KSRemote [] (Some l) skip) t m now.
+  Proof.
+    intros k v l skip t m now.
+    assert (E : forall allowed parsed,
+               check_signature verify allowed (KSRemote l (Some l) skip) t parsed
+               = check_signature verify allowed (KSRemote [] (Some l) skip) t parsed)
+      by (intros; apply check_signature_steady; now right).
+    destruct k as [| | |dg|a]; cbn [run_verifier];
+      unfold verify_id_token, verify_access_token, verify_id_token_hint, verify_jwt_assertion, parse_request_object;
+      destruct m as [| | | |bytes c]; try reflexivity; cbn [bind_profile]; now rewrite E.
+  Qed.
+End Steady.
+
+(* Under the symbolic reading of signature values (a value verifies only under
+   the key material, algorithm, protected header bytes and payload bytes it was
+   made for) an accepted token carries a signature made for exactly ITS header
+   and ITS payload: a signature segment lifted from another - however often
+   verified - token onto a different payload or header is never believed. *)
+Lemma sym_verify_binds : forall k e p,
+  sym_verify k e p = true -> se_sig e = SigBy (k_mat k) (se_alg e) (se_prot e) p.
+Proof.
+  intros k e p H. unfold sym_verify in H. destruct (se_sig e) as [m a pr pl|]; [|discriminate].
+  apply andb_true_iff in H as [H Hp]. apply andb_true_iff in H as [H Hr]. apply andb_true_iff in H as [Hm Ha].
+  apply N.eqb_eq in Hm. apply seqb_eq in Ha. apply seqb_eq in Hr. apply seqb_eq in Hp. now subst.
+Qed.
+
+Theorem signature_not_transferable : forall allowed ks t parsed alg,
+  check_signature sym_verify allowed ks t parsed = Ok alg ->
+  exists e k,
+    tok_sigs t = [e] /\ In k (ks_keys ks) /\ trusted_key ks e k = true
+    /\ se_sig e = SigBy (k_mat k) alg (se_prot e) parsed.
+Proof.
+  intros allowed ks t parsed alg H.
+  apply check_signature_sound in H as [e [k [H1 [H2 [H3 [H4 [H5 [H6 H7]]]]]]]].
+  exists e, k. subst alg. repeat split; try assumption. now apply sym_verify_binds.
+Qed.
+
+Theorem verifier_signature_not_transferable : forall k v ks t m now c' alg,
+  outcome_claims (run_verifier sym_verify k v ks t m now) = Some (c', alg) ->
+  exists bytes c e key,
+    m = MidOk bytes c /\ c' = returned_claims k c
+    /\ tok_sigs t = [e] /\ In key (ks_keys (verifier_keyset k ks c))
+    /\ se_sig e = SigBy (k_mat key) (se_alg e) (se_prot e) bytes.
+Proof.
+  intros k v ks t m now c' alg H.
+  apply payload_binding in H as [bytes [c [e [key [H1 [H2 [H3 [H4 [H5 [H6 [H7 H8]]]]]]]]]]].
+  exists bytes, c, e, key. repeat split; try assumption. now apply sym_verify_binds.
+Qed.
+
+(* ... at any position of any history of one remote key set instance (whatever it
+   verified, downloaded or cached before) *)
+Theorem remote_history_no_transfer : forall allowed skip steps cached n s alg f,
+  nth_error steps n = Some s ->
+  nth_error (remote_run sym_verify allowed skip cached steps) n = Some (Ok alg, f) ->
+  exists e mat, tok_sigs (rs_tok s) = [e] /\ se_sig e = SigBy mat alg (se_prot e) (rs_parsed s).
+Proof.
+  intros allowed skip steps. induction steps as [|s0 r IH]; intros cached n s alg f Hs Hr.
+  - destruct n; discriminate.
+  - destruct n as [|n]; cbn [nth_error remote_run] in *.
+    + inversion Hs; subst s0. inversion Hr as [[Hc Hf]].
+      apply signature_not_transferable in Hc as [e [k [H1 [_ [_ H4]]]]]. now exists e, (k_mat k).
+    + eapply IH; eassumption.
+Qed.
+
+Theorem replayed_signature_rejected : forall allowed skip steps cached n s e mat a pr pl res f,
+  nth_error steps n = Some s ->
+  tok_sigs (rs_tok s) = [e] -> se_sig e = SigBy mat a pr pl ->
+  pr <> se_prot e \/ pl <> rs_parsed s ->
+  nth_error (remote_run sym_verify allowed skip cached steps) n = Some (res, f) ->
+  exists er, res = Err er.
+Proof.
+  intros allowed skip steps cached n s e mat a pr pl res f Hs He Hsig Hne Hr.
+  destruct res as [alg|er]; [|now exists er]. exfalso.
+  destruct (remote_history_no_transfer _ _ _ _ _ _ _ _ Hs Hr) as [e' [mat' [He' Hsig']]].
+  rewrite He in He'. inversion He'; subst e'. rewrite Hsig in Hsig'. inversion Hsig'; subst.
+  destruct Hne as [Hne|Hne]; now apply Hne.
+Qed.
+
 (* ---------- non-vacuity: concrete inputs meeting the theorems' hypotheses ---------- *)
 Definition ex_key : jwk := mkJwk "k1" "sig" KRsa 0.
 Definition ex_key2 : jwk := mkJwk "" "" KRsa 1.
@@ -717,6 +850,14 @@ Example each_verifier_expired_nonvacuous :
   run_verifier sym_verify VIDTokenHint ex_verifier (KSOpenID (Some [ex_key]))
                (TCompact ex_entry "P") (MidOk "P" ex_claims) 2100000000000000000
   = AcceptExpired ex_claims "RS256" EExpired.
+Proof. vm_compute. reflexivity. Qed.
+
+(* a genuine token, then its signature on another payload: accepted, rejected *)
+Example replay_nonvacuous :
+  map fst (remote_run sym_verify [] false []
+     [mkRStep (Some [ex_key]) (TCompact ex_entry "P") "P";
+      mkRStep (Some [ex_key]) (TCompact ex_entry "EVIL") "EVIL"])
+  = [Ok "RS256"; Err ESigInvalid].
 Proof. vm_compute. reflexivity. Qed.
 
 Example smuggling_nonvacuous :
